@@ -961,3 +961,158 @@ def gen_random(rng):
     if rng.random() < 0.5:
         directives["rd"] = {"locations": rng.sample(LOCATIONS, rng.randint(1, 2)), "args": {f"a{k}": riv() for k in range(rng.choice([0, 1, 2]))}, "repeatable": rng.random() < 0.3}
     return {"roots": roots, "schema_block": sb, "types": types, "directives": directives}
+
+
+# ----------------------------------------------------------------------------- Python-value defaults
+# (GraphQLDefaultInput(value=...) on arguments, input fields and directive arguments: only
+# programmatic construction can produce them).  Values are JSON; a tuple is {"__t": [...]}.
+
+EXCEPTIONS = ["KeyError", "ValueError", "ZeroDivisionError", "AttributeError", "TypeError", "IndexError", "RuntimeError", "GraphQLError", "AssertionError", "LookupError", "OverflowError"]
+
+_BAD_LEAF = {
+    "Int": ["s", 1.5, True, 2147483648, -2147483649, [1, "a"], {"a": 1}, float("inf")],
+    "Float": ["x", True, {"a": 1}, [1.5, "y"]],
+    "String": [1, True, 1.5, {"a": 1}, ["a", 2]],
+    "Boolean": [1, "true", 0.0, {"a": 1}],
+    "ID": [1.5, True, {"a": 1}, [[1]]],
+}
+_GOOD_LEAF = {
+    "Int": [0, 7, -2147483648, 2.0],
+    "Float": [1.5, 2, -3],
+    "String": ["", "a"],
+    "Boolean": [True, False],
+    "ID": ["id", 7, 3.0],
+}
+
+
+def _value_for(rng, d, t, bad, depth=0):
+    """(value, made_bad) — a Python value for type t; when `bad`, wrong in one of many ways."""
+    if t[0] == "!":
+        if bad and rng.random() < 0.25:
+            return None, True
+        return _value_for(rng, d, t[1], bad, depth)
+    if not bad and rng.random() < 0.1:
+        return None, False
+    if t[0] == "l":
+        r = rng.random()
+        if bad and r < 0.2:
+            return {"zz": 1}, True  # wrong container
+        if r < 0.35:
+            return _value_for(rng, d, t[1], bad, depth + 1)  # list of one
+        n = rng.randint(0 if not bad else 1, 3)
+        items, any_bad = [], False
+        pos = rng.randrange(n) if n else 0
+        for i in range(n):
+            v, b = _value_for(rng, d, t[1], bad and i == pos, depth + 1)
+            items.append(v)
+            any_bad = any_bad or b
+        if rng.random() < 0.3:
+            return {"__t": items}, any_bad
+        return items, any_bad
+    nm = t[1]
+    if nm in _BAD_LEAF:
+        return (rng.choice(_BAD_LEAF[nm]), True) if bad else (rng.choice(_GOOD_LEAF[nm]), False)
+    tt = d["types"].get(nm)
+    if tt is None:
+        return 1, False
+    if tt["kind"] == "scalar":
+        return rng.choice([1, "x", {"a": [1, None]}, [1, 2], True, 1.5]), False
+    if tt["kind"] == "enum":
+        if bad:
+            return rng.choice(["NOPE", 1, True, ["V0", "NOPE"], {"V0": 1}, "not a name", 0.5]), True
+        return rng.choice(tt["values"]), False
+    if tt["kind"] == "input":
+        fields = tt["fields"]
+        if bad:
+            r = rng.random()
+            if r < 0.2:
+                return rng.choice([1, "x", True, [[1]], 2.5]), True  # wrong container
+        if depth > 3:
+            return ({"zz": 1}, True) if bad else (None, False)
+        out = {}
+        names = list(fields)
+        if tt.get("oneOf"):
+            f = rng.choice(names)
+            v, b = _value_for(rng, d, NN(fields[f]["type"]) if not bad else fields[f]["type"], False, depth + 1)
+            out[f] = v
+            if bad:
+                r = rng.random()
+                if r < 0.4:
+                    out[f] = None
+                elif r < 0.7 and len(names) > 1:
+                    out[[x for x in names if x != f][0]] = None
+                else:
+                    out["unknownKey"] = 1
+                return out, True
+            return out, (v is None)
+        mode = rng.choice(["unknown", "missing", "nested", "unknown"]) if bad else None
+        made = False
+        for f in names:
+            iv = fields[f]
+            req = iv["type"][0] == "!" and iv["default"] is None
+            if req and mode == "missing" and not made:
+                made = True
+                continue
+            if req or rng.random() < 0.4:
+                v, b = _value_for(rng, d, iv["type"], mode == "nested" and not made, depth + 1)
+                made = made or b
+                out[f] = v
+        if bad and not made:
+            out[rng.choice(["zz", "unknownKey", "x1"])] = rng.choice([1, None, {"a": 1}])
+            made = True
+        return out, made
+    # not an input type at all
+    return rng.choice([1, {"a": 1}, None]), False
+
+
+def gen_value_tweaks(rng, d):
+    """tweaks (see checks/c20.py `build`) that add arguments / input fields / directive arguments
+    whose default is a Python value, mostly invalid; and custom scalars whose callbacks raise."""
+    q = d["roots"]["query"]
+    qt = d["types"].get(q)
+    if not qt or qt["kind"] != "object" or not qt["fields"]:
+        return []
+    qf = rng.choice(list(qt["fields"]))
+    inputs = [n for n, t in d["types"].items() if t["kind"] == "input"]
+    plain_inputs = [n for n in inputs if not d["types"][n]["oneOf"]]
+    enums = [n for n, t in d["types"].items() if t["kind"] == "enum"]
+    scalars = [n for n, t in d["types"].items() if t["kind"] == "scalar"]
+    pool = BUILTIN + enums + inputs + inputs + scalars
+    tweaks = []
+    for k in range(rng.randint(1, 3)):
+        t = N(rng.choice(pool))
+        for _ in range(rng.choice([0, 0, 1, 1, 2])):
+            t = rng.choice([L, NN])(t)
+        bad = rng.random() < 0.8
+        v, _ = _value_for(rng, d, t, bad)
+        where = rng.choice(["arg", "arg", "input", "dirarg"])
+        if where == "input" and not plain_inputs:
+            where = "arg"
+        if where == "arg":
+            tweaks.append(["add_value_default", "arg", q, qf, f"pv{k}", show_t(t), v])
+        elif where == "input":
+            tweaks.append(["add_value_default", "input", rng.choice(plain_inputs), None, f"pv{k}", show_t(t), v])
+        else:
+            tweaks.append(["add_value_default", "dirarg", f"pvd{k}", None, "x", show_t(t), v])
+    if rng.random() < 0.6:
+        # a custom scalar whose parse_value / serialize raise
+        pe = rng.choice(["accept", "reject"] + ["raise:" + e for e in EXCEPTIONS])
+        se = rng.choice(["identity", "const"] + ["raise:" + e for e in EXCEPTIONS] * 2)
+        tweaks.append(["raising_scalar", "Rs", pe, se])
+        t = rng.choice([N("Rs"), NN(N("Rs")), L(N("Rs")), NN(L(NN(N("Rs"))))])
+        v = rng.choice([3, "x", [1, 2], {"a": 1}, [None], None, 1.5])
+        where = rng.choice(["arg", "input", "dirarg"])
+        if where == "input" and not plain_inputs:
+            where = "arg"
+        if where == "arg":
+            tweaks.append(["add_value_default", "arg", q, qf, "prs", show_t(t), v])
+        elif where == "input":
+            tweaks.append(["add_value_default", "input", rng.choice(plain_inputs), None, "prs", show_t(t), v])
+        else:
+            tweaks.append(["add_value_default", "dirarg", "prsd", None, "x", show_t(t), v])
+        if inputs and rng.random() < 0.5:
+            # the raising scalar behind an input object: {f: <bad>} given for a new field
+            i = rng.choice(plain_inputs) if plain_inputs else None
+            if i:
+                tweaks.append(["add_value_default", "input", i, None, "prsIn", "Rs", rng.choice([3, "x"])])
+    return tweaks
